@@ -12,7 +12,11 @@ Correspondence: the real output and the real prepared stream against the impleme
 `Genshi.Tmpl.implRender` / `Genshi.Tmpl.compile`; the Lean scanners against the compiled regular
 expressions' own `finditer` (`text-scan-tokens`) and against the event stream of `_parse` on raw,
 also malformed, text (`text-scan-parse`); the end-to-end model from source text against the model from
-the AST (`raw-text-compile`) and against the real render (`raw-text-render`).
+the AST (`raw-text-compile`) and against the real render (`raw-text-render`); the specification printer
+of text templates the inversion theorem (`raw_print_roundtrip`) is about against the printer that wrote
+the sources of all these streams (`print-text`; `inversion-hypothesis:*` counts how many generated
+templates are inside the hypothesis of the theorem).  Parameter binding of macros (positional, keyword,
+default, missing) is generated on purpose (`gen_macro_case`, counters `bind:*`).
 """
 import json, random, warnings
 from harness import proto
@@ -32,11 +36,12 @@ TRUSTED = [
     'scanners (Model/TmplScan.lean; the shape of the compiled patterns is checked and their flags are read by '
     'harness/extract_textscan.py), _escape_re.sub, the line splitting of the old syntax, interpolate over the C03 model of lex, '
     'a reader of the mini language and of the directive arguments (Model/TmplRaw.lean) -- tied by the streams text-scan-tokens, '
-    'text-scan-parse, raw-text-compile, raw-text-render; the Python syntax of ${...} / {% python %} sources is judged by CPython',
+    'text-scan-parse, raw-text-compile, raw-text-render; the specification printer Model/TmplPrint.lean (hypothesis side of the '
+    'inversion theorem) -- tied by print-text; the Python syntax of ${...} / {% python %} sources is judged by CPython',
     'not modelled, only exercised: expat and MarkupTemplate._parse (markup source -> parsed stream), genshi.template.eval '
     '(expressions are re-implemented for a mini language: names, None/bool/int/str/list/dict literals, ==, not, len, indexing), '
     'Attrs.__or__ (C18 model), the serializer; custom delimiters of NewTextTemplate; line numbers / offsets of the events',
-    'outside the model: py:match, <?python?>, xi:include, i18n directives, py:def defaults/*args/**kwargs, tuple '
+    'outside the model: py:match, <?python?>, xi:include, i18n directives, *args/**kwargs parameters of py:def (defaults and keyword arguments are modelled), tuple '
     'unpacking in py:for / py:with, interpolated attribute values, py: attributes on directive elements (known finding)',
     'the documentation semantics `doc` is a formalisation of doc/xml-templates.rst / text-templates.rst by hand; where '
     'the documents are silent (macro bodies see the caller\'s variables; py:when refers to the innermost choose being '
@@ -49,6 +54,9 @@ ASSUMPTIONS = [
     'parentheses: C03/C13 defect, outside this property); names avoid Python builtins',
     'directive elements (<py:for> ...) carry no further py: attributes (known finding C04-direlem-attrs)',
     'each macro name is defined at most once per template and called only after its definition (no recursion)',
+    'macro calls: positional arguments before keyword arguments, keyword names distinct (Python syntax); where a Python '
+    'function would raise TypeError (surplus positional arguments; a keyword for a parameter already filled by position) the '
+    'documentation semantics follows the engine (the surplus is dropped) -- only surplus positional arguments are generated',
     'scanner oracles: token lists from the grammar of harness/gen_textraw.py / gen_old_toks (texts without $, balanced blocks; a text '
     'in front of a delimiter does not end in a backslash: such a template cannot be written)',
     'two Undefined values are never compared with == (object identity of Undefined is not in the value universe: '
@@ -663,7 +671,15 @@ def gen_macro_case(rng, lang):
     names = list(G.VARS)
     params = rng.sample(['x', 'y', 'p', 'q'], rng.choice([1, 2, 2, 3]))
     nd = min(len(params), rng.choice([0, 1, 1, 2, 3]))
-    arg = ['f', params] + ([[[pn, G.gen_default(rng, names)] for pn in params[len(params) - nd:]]] if nd else [])
+    dflts = []
+    for i in range(len(params) - nd, len(params)):
+        if i > 0 and rng.random() < 0.35:
+            # a default that names an earlier parameter: it is evaluated in the context of the call, where that
+            # name means the outer variable (or nothing), not the argument just bound
+            dflts.append([params[i], ['v', rng.choice(params[:i])]])
+        else:
+            dflts.append([params[i], G.gen_default(rng, names)])
+    arg = ['f', params] + ([dflts] if nd else [])
     body = []
     for pn in params:
         body += [['t', 'a'], ['e', ['v', pn]], ['t', '.'], ['e', ['eq', ['v', pn], ['n']]]]
